@@ -182,3 +182,14 @@ package schema
 //@   trusted "key table lookup by position: only its frame is assumed"
 //@   maypanic
 //@   defines panics ==> typeis(pv, string)
+
+//@ func (*MixedValueNode).GetTypes()
+//@   props C09
+//@   requires n != nil
+//@   nopanic
+//@   ensures result == n.types
+//@ func (*Type).Schema()
+//@   props C09
+//@   requires s != nil
+//@   nopanic
+//@   ensures result == s.schema
